@@ -54,6 +54,40 @@ FirstDiff(x, y) ==
   IF d # {} THEN CHOOSE i \in d : \A j \in d : i <= j
   ELSE IF Len(x) # Len(y) THEN n + 1 ELSE 0
 
+\* Which template ids differ between the two builds, and is the difference the known one?  The known divergence
+\* (KF-c17-ipfix-templates-after-unknown-field-set): inside one IPFIX message the feature-off build stops at a data
+\* set it cannot decode (the default build's item mentions an unknown field type), so it reports a proper prefix of
+\* the default build's sets and never sees the template sets behind the undecodable one.  Any other difference - a
+\* template the feature-off build reported but did not cache, an older definition kept, an entry lost - is not that.
+CacheOf(x, pr) == IF x = <<>> THEN [data |-> <<>>, opts |-> <<>>] ELSE x[1][pr]
+EntryOf(c, id) == <<{c.data[i].def : i \in {q \in 1..Len(c.data) : c.data[q].key = id}},
+                    {c.opts[i].def : i \in {q \in 1..Len(c.opts) : c.opts[q].key = id}}>>
+IdsOfCache(c) == {c.data[i].key : i \in 1..Len(c.data)} \cup {c.opts[i].key : i \in 1..Len(c.opts)}
+DiffIds(x, y, pr) == {id \in IdsOfCache(CacheOf(x, pr)) \cup IdsOfCache(CacheOf(y, pr)) :
+                        EntryOf(CacheOf(x, pr), id) # EntryOf(CacheOf(y, pr), id)}
+LostBehindUndecodable(a, b) ==
+  UNION {LET sa == a.out[j].sets  sb == b.out[j].sets  m == Len(sb) IN
+         IF a.out[j].k = "ipfix" /\ b.out[j].k = "ipfix" /\ a.out[j].unk /\ m < Len(sa)
+            /\ SubSeq(sa, 1, m) = sb /\ sa[m + 1].k \in {"data", "odata"}
+           THEN UNION {{sa[q].recs[r].id : r \in 1..Len(sa[q].recs)} :
+                         q \in {z \in (m + 2)..Len(sa) : sa[z].k \in {"tmpl", "otmpl"}}}
+           ELSE {}
+         : j \in 1..MinLen(a.out, b.out)}
+\* the feature-off build holds, for every id that differs, what it held before the call or a definition from a set
+\* it did report in this call (it never saw the later sets)
+ReportedEntries(b, id) ==
+  UNION {UNION {{IF b.out[j].sets[q].k = "tmpl" THEN <<{b.out[j].sets[q].recs[r]}, {}>> ELSE <<{}, {b.out[j].sets[q].recs[r]}>>
+                   : r \in {z \in 1..Len(b.out[j].sets[q].recs) : b.out[j].sets[q].recs[z].id = id}}
+                : q \in {z \in 1..Len(b.out[j].sets) : b.out[j].sets[z].k \in {"tmpl", "otmpl"}}}
+         : j \in {z \in 1..Len(b.out) : b.out[z].k = "ipfix"}}
+CacheDiffWhy(a, b, x, y, xb0, pr, isret) ==
+  IF ~isret THEN pr
+  ELSE IF pr = "ipfix" /\ DiffIds(x, y, pr) \subseteq LostBehindUndecodable(a, b)
+          /\ \A id \in DiffIds(x, y, pr) : \/ EntryOf(CacheOf(y, pr), id) = EntryOf(CacheOf(xb0, pr), id)
+                                            \/ EntryOf(CacheOf(y, pr), id) \in ReportedEntries(b, id)
+    THEN pr \o ":behind-undecodable-set"
+  ELSE pr \o ":unexplained"
+
 MixedFindings(a, b, ta2, tb2) ==
   LET p == a.p
       i == FirstDiff(a.out, b.out)
@@ -62,9 +96,11 @@ MixedFindings(a, b, ta2, tb2) ==
                ELSE IF i > Len(a.out) THEN {<<"C17", "feature-off", "extra-item", b.out[i].k>>}
                ELSE IF a.out[i].k \in {"v9", "ipfix"} /\ a.out[i].unk THEN {}
                ELSE {<<"C17", "feature-off", "known-only-item-differs", a.out[i].k>>}
-      caches == {<<"C17", "feature-off", "cache-differs", pr>> :
-                   pr \in UNION {DiffProtos(IF q \in DOMAIN ta2 THEN ta2[q] ELSE <<>>, IF q \in DOMAIN tb2 THEN tb2[q] ELSE <<>>)
-                                 : q \in (DOMAIN ta2 \cup DOMAIN tb2) \ off}}
+      At(t, q) == IF q \in DOMAIN t THEN t[q] ELSE <<>>
+      caches == UNION {{<<"C17", "feature-off", "cache-differs",
+                          CacheDiffWhy(a, b, At(ta2, q), At(tb2, q), At(tb, q), pr, q = p /\ "e" \in DOMAIN a /\ a.e = "ret")>> :
+                          pr \in DiffProtos(At(ta2, q), At(tb2, q))}
+                       : q \in (DOMAIN ta2 \cup DOMAIN tb2) \ off}
   IN IF p \in off THEN {} ELSE items \cup caches
 
 Emit(fs) == \A f \in fs : PrintT("FINDING~~" \o ToString(l) \o "~~" \o f[1] \o "~~" \o f[2] \o "~~" \o f[3] \o "~~" \o f[4])
